@@ -48,6 +48,8 @@ def instances(tier):
         out.append({"kind": "closed", "how": "closed_after_open", "via": via})
     out.append({"kind": "overfill"})
     out.append({"kind": "overfill", "eleventh": "predefined"})
+    for g in (4, 5):
+        out.append({"kind": "api_overfill", "gen": g})
     return out
 
 
@@ -71,6 +73,8 @@ def run(ctx, p):
         return _run_step(ctx, p)
     if p["kind"] == "closed":
         return _run_closed(ctx, p)
+    if p["kind"] == "api_overfill":
+        return _run_api_overfill(ctx, p)
     return _run_overfill(ctx, p)
 
 
@@ -169,6 +173,80 @@ def sum_bools(bs):
         elif b:
             total = total + 1
     return total
+
+
+def _run_api_overfill(ctx, p):
+    """Through the public API: the link is down, ten commands are held; an eleventh request of any kind (solver-enumerated)
+    raises the overflow error to its caller, and the ten go out when the link is back."""
+    import datetime
+    import importlib
+    from .common import ApiRig
+    from .console import Installation
+    A = importlib.import_module("pyairtouch.api")
+    S = socket_mod()
+    g = Gen(p["gen"])
+    inst = Installation.simple(g.n, n_acs=1, zones_per_ac=1)
+    calls = ["check_for_updates", "ac_power", "ac_mode", "ac_fan", "ac_temp", "timer_time", "timer_clear", "timer_duration", "zone_power", "zone_damper", "zone_temp"]
+    which = calls[ctx.choice("eleventh", len(calls))]
+    with ApiRig(ctx, g, inst) as rig:
+        mode = {"accept": True}
+        rig.net.on_connect = lambda net, n: (("accept", 0) if mode["accept"] else ("refuse",))
+        rig.start()
+        rig.run(1.0)
+        ctx.check(rig.init_result is True, "overfill.eleventh_rejected", detail="handshake failed")
+        mode["accept"] = False
+        rig.net.current().reset()
+        rig.run(1.5)
+        ac, zone = rig.ac(0), rig.zone(0)
+        res = []
+
+        async def go():
+            for i in range(S.MAX_MESSAGE_QUEUE_SIZE):
+                try:
+                    await ac.set_target_temperature(20 + (i % 5))
+                    res.append("ok")
+                except S.QueueOverflowError:
+                    res.append("overflow")
+            try:
+                if which == "check_for_updates":
+                    await rig.at.check_for_updates()
+                elif which == "ac_power":
+                    await ac.set_power(A.AcPowerControl.TURN_ON)
+                elif which == "ac_mode":
+                    await ac.set_mode(A.AcMode.COOL)
+                elif which == "ac_fan":
+                    await ac.set_fan_speed(A.AcFanSpeed.LOW)
+                elif which == "ac_temp":
+                    await ac.set_target_temperature(23)
+                elif which == "timer_time":
+                    await ac.set_quick_timer(A.AcTimerType.ON_TIMER, datetime.time(7, 30))
+                elif which == "timer_clear":
+                    await ac.clear_quick_timer(A.AcTimerType.OFF_TIMER)
+                elif which == "timer_duration":
+                    await ac.set_quick_timer(A.AcTimerType.OFF_TIMER, datetime.timedelta(minutes=45))
+                elif which == "zone_power":
+                    await zone.set_power(A.ZonePowerState.OFF)
+                elif which == "zone_damper":
+                    await zone.set_damper_percentage(35)
+                else:
+                    await zone.set_target_temperature(22)
+                res.append("ok")
+            except S.QueueOverflowError:
+                res.append("overflow")
+            except Exception as e:  # noqa: BLE001
+                res.append(type(e).__name__)
+
+        rig.spawn(go())
+        rig.run(2.5)
+        n0 = len(rig.console.requests)
+        mode["accept"] = True
+        rig.run(8.0)
+        cmds = [k for _, k, _ in rig.console.requests[n0:] if k == "ac_ctrl"]
+        others = [k for _, k, _ in rig.console.requests[n0:] if k not in ("ac_ctrl", "ac_status", "zone_status", "version")]
+        ok = res == ["ok"] * S.MAX_MESSAGE_QUEUE_SIZE + ["overflow"] and len(cmds) == S.MAX_MESSAGE_QUEUE_SIZE + (0) and others == []
+        ctx.check(ok, "overfill.eleventh_rejected", detail={"eleventh": which, "results": res, "commands_written": len(cmds), "others": others})
+    for lab in expect_labels("quick"):
+        ctx.reach(lab)
 
 
 def _run_closed(ctx, p):
